@@ -34,7 +34,9 @@ import (
 	"syscall"
 	"time"
 
+	"github.com/BurntSushi/toml"
 	"github.com/honeytrap/honeytrap/event"
+	"github.com/honeytrap/honeytrap/listener"
 	"github.com/honeytrap/honeytrap/listener/canary"
 	"github.com/honeytrap/honeytrap/listener/canary/arp"
 	"github.com/honeytrap/honeytrap/listener/canary/ethernet"
@@ -55,6 +57,8 @@ const (
 	siteTableFull = 5
 	siteARP       = 6
 	siteEth       = 7
+	siteDecoder   = 12 // panic in a decoder / reader goroutine that was not recovered
+	siteKnock     = 13 // panic in the knock detector goroutine
 	siteUnknown   = 90
 )
 
@@ -63,6 +67,10 @@ const (
 func classify(stack string, rec string) int {
 	has := func(s string) bool { return strings.Contains(stack, s) }
 	switch {
+	case has("canary.(*Canary).knockDetector"):
+		return siteKnock
+	case has("canary.(*Canary).Decode") || has("canary.(*Canary).handleUDP.func") || has("canary.(*Canary).handleTCP.func"):
+		return siteDecoder
 	case has("canary.(*StateTable).Add"):
 		return siteTableFull
 	case has("canary.(*Canary).send"):
@@ -499,6 +507,17 @@ type HistIn struct {
 	// frame belongs to, read from the state table through the hook)
 	Steps []Step `json:"steps,omitempty"`
 	Note  string `json:"note,omitempty"`
+	// Child: run in a child process even in injection mode (goroutines of the listener
+	// that may die without an effective recover: decoders, readers, knock detector)
+	Child bool `json:"child,omitempty"`
+	// Compact: only the probe is given to the model (the frames before it are a port scan
+	// of thousands of frames; C02_probe_after_hostile covers every such prefix)
+	Compact bool `json:"compact,omitempty"`
+	// QuietMs: before the probe, stay silent for this long and then until the knock
+	// detector has reported the scan (its 5 s report tick)
+	QuietMs int `json:"quiet_ms,omitempty"`
+	// SettleMs: after the probe was answered, give the decoder goroutines this long
+	SettleMs int `json:"settle_ms,omitempty"`
 }
 
 type Step struct {
@@ -557,16 +576,43 @@ type HistObs struct {
 	SpanMs  int64    `json:"span_ms"`
 	Times   []int64  `json:"times"` // arrival offsets (ms) of the listed frames
 	Stderr  string   `json:"stderr,omitempty"`
+	Portscans int    `json:"portscans"` // portscan reports seen (evidence only)
 }
 
 type capture struct {
-	mu  sync.Mutex
-	evs []UEvent
+	mu       sync.Mutex
+	evs      []UEvent
+	portscan int
+}
+
+func (c *capture) portscans() int {
+	c.mu.Lock()
+	defer c.mu.Unlock()
+	return c.portscan
+}
+
+// quiet: silence before the probe so that the knock detector's report tick fires
+func quiet(in HistIn, cap *capture) {
+	if in.QuietMs <= 0 {
+		return
+	}
+	time.Sleep(time.Duration(in.QuietMs) * time.Millisecond)
+	deadline := time.Now().Add(60 * time.Second)
+	for cap.portscans() == 0 && time.Now().Before(deadline) {
+		time.Sleep(20 * time.Millisecond)
+	}
+	time.Sleep(50 * time.Millisecond)
 }
 
 func parseIP4(s string) int64 { return ip4val(net.ParseIP(s)) }
 
 func (c *capture) Send(e event.Event) {
+	if e.Get("category") == "portscan" {
+		c.mu.Lock()
+		c.portscan++
+		c.mu.Unlock()
+		return
+	}
 	if e.Get("category") != "udp" || e.Get("sensor") != "canary" {
 		return
 	}
@@ -629,6 +675,19 @@ func newCanary(in HistIn, cap *capture) *canary.VerifCanary {
 	v, err := canary.NewVerifCanary("lo", ac, rt, cap)
 	if err != nil {
 		hx.Fatal("NewVerifCanary: %v", err)
+	}
+	// the listener section of a configuration file, applied the way the server does: every
+	// documented key, so that a key that starts to have an effect is exercised (do_arp is
+	// ignored by the unchanged code: the field is unexported)
+	var cfg struct {
+		Listener toml.Primitive `toml:"listener"`
+	}
+	md, err := toml.Decode("[listener]\ntype=\"raw\"\ninterfaces=[\"lo\"]\ndo_arp=true\n", &cfg)
+	if err != nil {
+		hx.Fatal("toml: %v", err)
+	}
+	if err := listener.WithConfig(cfg.Listener, &md)(v.C); err != nil {
+		hx.Fatal("listener config: %v", err)
 	}
 	return v
 }
@@ -750,6 +809,9 @@ func runInject(in HistIn) HistObs {
 		if !alive {
 			break
 		}
+		if i == len(rest)-1 {
+			quiet(in, cap)
+		}
 		f = prepare(v, in, i, f)
 		ob.Times = append(ob.Times, time.Since(start).Milliseconds())
 		alive = one(f)
@@ -761,14 +823,19 @@ func runInject(in HistIn) HistObs {
 			time.Sleep(200 * time.Microsecond)
 		}
 		time.Sleep(2 * time.Millisecond)
+		time.Sleep(time.Duration(in.SettleMs) * time.Millisecond)
 		ob.Count = v.StateCount()
 	}
 	ob.Events = cap.snapshot()
+	ob.Portscans = cap.portscans()
 	return ob
 }
 
 // childMain: the real Start() loop in this (child) process.
 func childMain(path string) {
+	if os.Getenv("C02_HANG_SEEN") != "" {
+		atomic.StoreInt32(&hangSeen, 1)
+	}
 	raw, err := os.ReadFile(path)
 	if err != nil {
 		fmt.Fprintln(os.Stderr, "child: ", err)
@@ -817,6 +884,9 @@ func childMain(path string) {
 		rest = in.Frames[1:]
 	}
 	for i, f := range rest {
+		if i == len(rest)-1 {
+			quiet(in, cap)
+		}
 		f = prepare(v, in, i, f)
 		ob.Times = append(ob.Times, time.Since(start).Milliseconds())
 		write(f)
@@ -837,11 +907,32 @@ func childMain(path string) {
 	for cap.count() < want && time.Now().Before(d2) {
 		time.Sleep(500 * time.Microsecond)
 	}
+	time.Sleep(time.Duration(in.SettleMs) * time.Millisecond)
 	ob.Count = v.StateCount()
 	ob.Events = cap.snapshot()
+	ob.Portscans = cap.portscans()
 	out, _ := json.Marshal(ob)
 	fmt.Printf("\nC02-CHILD-RESULT %s\n", out)
 	os.Exit(0)
+}
+
+// shrinkDeath: the history killed the child; try every frame alone (followed by the
+// probe).  Only histories of plain frames are shrunk.
+func shrinkDeath(in HistIn, scratch string, id int) (HistIn, HistObs, bool) {
+	if in.Rep > 0 || len(in.Steps) > 0 || in.QuietMs > 0 || len(in.Frames) < 3 || len(in.Frames) > 200 {
+		return in, HistObs{}, false
+	}
+	probe := in.Frames[len(in.Frames)-1]
+	for k := 0; k < len(in.Frames)-1; k++ {
+		s := in
+		s.Frames = []hx.B{in.Frames[k], probe}
+		s.Note = in.Note + " (shrunk to one frame)"
+		ob, crash := runChild(s, scratch, id)
+		if crash == "" && ob.Fatal != 0 {
+			return s, ob, true
+		}
+	}
+	return in, HistObs{}, false
 }
 
 // The verdict "hang" is given only after a generous wait: on a loaded machine a goroutine
@@ -866,8 +957,10 @@ var reGoroutineFn = regexp.MustCompile(`(?m)^([A-Za-z0-9_./\-]+\.[A-Za-z0-9_.()*
 
 // runChild re-executes this binary; returns the child's observation or, when it died
 // of a panic, the classified site.
+var childSeq int64
+
 func runChild(in HistIn, scratch string, id int) (HistObs, string) {
-	path := filepath.Join(scratch, fmt.Sprintf("child_%d.json", id))
+	path := filepath.Join(scratch, fmt.Sprintf("child_%d_%d.json", id, atomic.AddInt64(&childSeq, 1)))
 	raw, _ := json.Marshal(in)
 	if err := os.WriteFile(path, raw, 0o644); err != nil {
 		hx.Fatal("child input: %v", err)
@@ -876,6 +969,9 @@ func runChild(in HistIn, scratch string, id int) (HistObs, string) {
 	ctx, cancel := context.WithTimeout(context.Background(), 1200*time.Second)
 	defer cancel()
 	cmd := exec.CommandContext(ctx, os.Args[0], "-child", path)
+	if atomic.LoadInt32(&hangSeen) != 0 {
+		cmd.Env = append(os.Environ(), "C02_HANG_SEEN=1")
+	}
 	var so, se bytes.Buffer
 	cmd.Stdout, cmd.Stderr = &so, &se
 	start := time.Now()
@@ -888,6 +984,9 @@ func runChild(in HistIn, scratch string, id int) (HistObs, string) {
 		}
 		if e := json.Unmarshal([]byte(line), &ob); e != nil {
 			hx.Fatal("child result: %v", e)
+		}
+		if ob.Fatal == siteHang {
+			atomic.StoreInt32(&hangSeen, 1)
 		}
 		return ob, ""
 	}
@@ -955,6 +1054,7 @@ func maybeMe(r *hx.Rand) [4]byte {
 }
 
 type histGen struct {
+	needChild bool // a decoder goroutine runs: child process
 	r       *hx.Rand
 	synned  [][3]int // (peer index, sport, dport) of SYNs sent so far
 	peers   [][4]byte
@@ -967,6 +1067,7 @@ func (g *histGen) benign() []byte {
 	case 0, 1: // UDP to me, default handler
 		return ipFrame(17, src, ipMe, udpSeg(r.Range(1024, 65535), r.PickInt([]int{7, 69, 500, 4000, 31337, 65535}), -1, r.Bytes(r.PickInt([]int{0, 1, 20, 300}))))
 	case 2: // UDP to a decoder port (goroutine with recover), garbage payload
+		g.needChild = true
 		return ipFrame(17, src, ipMe, udpSeg(r.Range(1024, 65535), r.PickInt([]int{53, 123, 1900, 5060, 161, 162}), -1, r.Bytes(r.PickInt([]int{0, 3, 12, 48, 100}))))
 	case 3: // UDP not for me / wrong length
 		if r.Bool() {
@@ -1097,6 +1198,7 @@ func genHist(r *hx.Rand, id int, mode string) HistIn {
 	pf, pe := probeFrame(id)
 	in.Frames = append(in.Frames, hx.B(pf))
 	in.Probe = pe
+	in.Child = g.needChild
 	return in
 }
 
@@ -1104,7 +1206,7 @@ func genHist(r *hx.Rand, id int, mode string) HistIn {
 func corpusHists(mode string) []HistIn {
 	allArp := [][4]byte{peerArp, gwOK}
 	mk := func(id int, note string, arp [][4]byte, routes []RouteIn, frames ...[]byte) HistIn {
-		in := HistIn{Mode: mode, Arp: arp, Routes: routes, Note: "corpus:" + note}
+		in := HistIn{Mode: mode, Arp: arp, Routes: routes, Note: "corpus:" + note, Child: true}
 		for _, f := range frames {
 			in.Frames = append(in.Frames, hx.B(f))
 		}
@@ -1166,6 +1268,20 @@ func coqHist(id int, in HistIn, ob HistObs) string {
 		routes = append(routes, fmt.Sprintf("mkRoute %s %s %s", ipZ(ro.Dest), ipZ(ro.Mask), ipZ(ro.Gw)))
 	}
 	rest := in.Frames
+	if in.Compact {
+		rest = in.Frames[len(in.Frames)-1:]
+		var only []UEvent
+		for _, e := range ob.Events {
+			if evKey(e) == evKey(in.Probe) {
+				only = append(only, e)
+			}
+		}
+		ob.Events = only
+		ob.Count, ob.Rets, ob.Tx, ob.FatalAt = -1, nil, -1, -1
+		if ob.Fatal == 0 {
+			ob.Rets = []int64{0} // the probe itself
+		}
+	}
 	for i, f := range rest {
 		t := int64(0)
 		k := i
@@ -1190,30 +1306,6 @@ func coqHist(id int, in HistIn, ob HistObs) string {
 		hx.CoqZ(int64(ob.Fatal)), hx.CoqZ(int64(ob.FatalAt)), coqZs(ob.Rets), hx.CoqList(evs, "uevent"), hx.CoqZ(int64(ob.Count)), hx.CoqZ(int64(ob.Tx)))
 }
 
-// doARP must stay unreachable from configuration: the model ignores ARP frames.
-func checkDoARPFact() {
-	repo := os.Getenv("VERIF_REPO")
-	if repo == "" {
-		repo = "/repo"
-	}
-	files, _ := filepath.Glob(filepath.Join(repo, "listener", "canary", "*.go"))
-	n := 0
-	for _, f := range files {
-		if strings.Contains(f, "verif_hooks") {
-			continue
-		}
-		b, err := os.ReadFile(f)
-		if err != nil {
-			continue
-		}
-		n += strings.Count(string(b), "doARP")
-	}
-	// the field declaration and its single use in the receive loop
-	if n != 2 {
-		hx.Fatal("fact changed: doARP is mentioned %d times in listener/canary (model assumes declaration + one use, never set)", n)
-	}
-}
-
 func main() {
 	if len(os.Args) == 3 && os.Args[1] == "-child" {
 		childMain(os.Args[2])
@@ -1221,7 +1313,6 @@ func main() {
 	}
 	o := hx.ParseArgs()
 	r := hx.NewRand(o.Seed)
-	checkDoARPFact()
 
 	type replayIn struct {
 		Part  string   `json:"part"`
@@ -1270,6 +1361,15 @@ func main() {
 		}
 		for i := 0; i < nconnLoop; i++ {
 			hins = append(hins, genConn(r, 50000+i, "loop"))
+		}
+		// decoder goroutines and the knock detector (child processes)
+		batch := 24
+		hins = append(hins, udpDecoderHists(r, o.Tier, batch)...)
+		hins = append(hins, tcpDecoderHists(r, o.Tier)...)
+		sizes := []int{1, 1023, 1024, 1025, 5000}
+		hins = append(hins, scanHist("tcp", sizes, 1), scanHist("udp", sizes, 2))
+		if o.Tier == "thorough" {
+			hins = append(hins, scanHist("tcp", []int{65535}, 3), scanHist("udp", []int{65535}, 4))
 		}
 		for v := 0; v < ntfull; v++ {
 			tins = append(tins, genTableFull(r, v%4))
@@ -1321,7 +1421,7 @@ func main() {
 	hcrash := make([]string, len(hins))
 	var wg sync.WaitGroup
 	sem := make(chan struct{}, 6)
-	isChild := func(in HistIn) bool { return in.Mode == "loop" || in.Rep > 1000 }
+	isChild := func(in HistIn) bool { return in.Mode == "loop" || in.Rep > 1000 || in.Child }
 	for i := range hins {
 		if isChild(hins[i]) {
 			wg.Add(1)
@@ -1330,6 +1430,12 @@ func main() {
 				sem <- struct{}{}
 				hobs[i], hcrash[i] = runChild(hins[i], o.Out, i)
 				<-sem
+				if hobs[i].Fatal != 0 && hobs[i].Fatal != siteHang {
+					// the process died: find a single frame that does it, for the replay
+					if sin, sob, ok := shrinkDeath(hins[i], o.Out, i); ok {
+						hins[i], hobs[i] = sin, sob
+					}
+				}
 			}(i)
 		}
 	}
@@ -1377,9 +1483,28 @@ func main() {
 		default:
 			hdist["frames:6+"]++
 		}
+		if in.Compact {
+			var only []UEvent
+			for _, e := range ob.Events {
+				if evKey(e) == evKey(in.Probe) {
+					only = append(only, e)
+				}
+			}
+			hdist["scan-udp-events-seen"] += len(ob.Events)
+			hdist["scan-portscan-reports-seen"] += ob.Portscans
+			ob.Events = only
+		}
 		kind := "hist-" + in.Mode
+		if strings.HasPrefix(in.Note, "decoder-") {
+			hdist["decoder-histories"]++
+			hdist["decoder-frames"] += len(in.Frames) - 1
+		}
 		if in.Rep > 0 {
 			kind = "flood-" + in.Mode
+		} else if in.Compact {
+			kind = "scan-" + in.Mode
+		} else if strings.HasPrefix(in.Note, "decoder-") {
+			kind = in.Note + "-" + in.Mode
 		} else if len(in.Steps) > 0 {
 			kind = "conn-" + in.Mode
 			hdist["connection-histories"]++
